@@ -160,6 +160,16 @@ class Recorder(object):
         except Exception:
             out['open'] = None      # signal broker has no books
         try:
+            import rqalpha.api as _api
+            sc = getattr(_api, 'scheduler', None)
+            if sc is not None and sc._registry:
+                out['sched'] = dict(today=W.dint(sc._today) if sc._today else None,
+                                    week=[d.toordinal() for d in (sc._this_week or [])], month=[d.toordinal() for d in (sc._this_month or [])],
+                                    last_minute=sc._last_minute, current_minute=sc._current_minute, stage=sc._stage,
+                                    start_minute=sc._start_minute, ranges=sorted(list(r) for r in sc._trading_minute_range))
+        except Exception:
+            pass
+        try:
             dec = env._transaction_cost_decider_dict
             cm = {}
             for k, dcd in dec.items():
@@ -315,6 +325,8 @@ def do_action(api, env, context, act, orders, rec):
         res = str(api.get_next_trading_date(act['d'], act.get('n', 1)))
     elif op == 'trading_dates':
         res = [str(x.date()) for x in api.get_trading_dates(act['a'], act['b'])]
+    elif op == 'count_dates':
+        res = int(env.data_proxy.count_trading_dates(act['a'], act['b']))
     elif op == 'subscribe':
         api.subscribe(act['ids'])
     elif op == 'unsubscribe':
@@ -471,8 +483,6 @@ def install_sched(api, reg, rec):
     t = reg.get('time')
     if t:
         if t[0] == 'before_trading':
-            tr = sch.time_rule = None
-            tr = api.market_open  # placeholder replaced below
             tr = 'before_trading'
         elif t[0] == 'open':
             tr = api.market_open(hour=t[1] // 60, minute=t[1] % 60)
@@ -483,7 +493,7 @@ def install_sched(api, reg, rec):
     tag = reg['tag']
 
     def fn(context, bar_dict):
-        rec.mark('sched', tag=tag)
+        rec.mark('sched', tag=tag, has_bars=bar_dict is not None)
         if reg.get('act'):
             env = rec.env
             rec.mark('api0', act=reg['act'], ph='scheduled', day=-2, bar=0)
